@@ -187,6 +187,43 @@ def stream_hms(ctx, athlib):
     return len(texts)
 
 
+def stream_wrapper(ctx, athlib):
+    """the same formatter reached through the validator: `check_performance_for_discipline(event, text, prec=k)` prints a
+    typed time with k decimals — that text must not be below the typed time either (and less than one unit above)"""
+    from fractions import Fraction
+    class EK(Exception): pass
+    n = 0
+    cases = [('100', ['10.234', '10.001', '11.999', '10.5', '12']), ('200', ['21.234', '23.991']), ('400', ['59.991', '48.123', '59.999']),
+             ('800', ['1:59.991', '2:00.001', '1:45.678']), ('1500', ['3:59.999', '4:10.121']), ('5000', ['15:23.456', '14:59.991', '13:00.001']),
+             ('10000', ['29:59.991', '31:02.203']), ('HM', ['1:10:00.001', '1:05:59.991', '59:59.991']), ('MAR', ['2:59:59.991', '2:10:10.101']),
+             ('3000SC', ['9:59.991', '8:30.004']), ('MILE', ['3:59.401', '4:30.009'])]
+    for ev, texts in cases:
+        for t in texts:
+            parts = t.split(':'); val = Fraction(0)
+            for p_ in parts: val = val * 60 + Fraction(p_)
+            for prec in (0, 1, 2, 3):
+                n += 1
+                try:
+                    r = athlib.check_performance_for_discipline(ev, t, errorKlass=EK, prec=prec)
+                except EK:
+                    continue
+                except Exception as e:
+                    ctx.fail('athlib.check_performance_for_discipline', [ev, t, prec], 'a time text or the caller\'s error', type(e).__name__, note='validator with a precision raises',
+                             replay_py='result = athlib.check_performance_for_discipline(%r, %r, prec=%r)' % (ev, t, prec)); continue
+                try:
+                    back = Fraction(0)
+                    for p_ in r.split(':'): back = back * 60 + Fraction(p_)
+                except Exception:
+                    continue
+                unit = Fraction(1, 10 ** prec)
+                if back < val or back >= val + unit:
+                    ctx.fail('athlib.check_performance_for_discipline', [ev, t, prec], 'the typed time rounded UP to %d decimals: not below %s, less than %s above' % (prec, t, float(unit)), r,
+                             note='a time printed through the validator is rounded down' if back < val else 'a time printed through the validator is too high',
+                             replay_py='result = athlib.check_performance_for_discipline(%r, %r, prec=%r)' % (ev, t, prec))
+    ctx.count(n, 'validator_with_precision_calls')
+    return n
+
+
 def run(ctx):
     ctx.rule = ('round_up_str_num: 24 integer parts (empty, zeros, all-nines, leading zeros, 1-4 digits) x every fraction of 0-7 digits over {0,5,9} '
                 'x precision 0..5 (exhaustive over that alphabet) + dot-less forms + 200 k seeded strings (long integer parts, other maxDP, precision to 9); '
@@ -209,7 +246,7 @@ def run(ctx):
     vlib.use_repo()
     import athlib
     n = 0
-    for st in (stream_rus, stream_fmt, stream_hms):
+    for st in (stream_rus, stream_fmt, stream_hms, stream_wrapper):
         t0 = time.time(); n += st(ctx, athlib); ctx.stats['seconds_' + st.__name__] = round(time.time() - t0, 1)
     ctx.distinct = set(range(n))
     ctx.exhaustive = False
